@@ -10,8 +10,29 @@ use super::*;
 fn verif_replay() {
     let path = match std::env::var("VERIF_REPLAY") { Ok(p) => p, Err(_) => return };
     let case: serde_json::Value = serde_json::from_str(&std::fs::read_to_string(path).unwrap()).unwrap();
-    let rt = tokio::runtime::Builder::new_current_thread().enable_all().build().unwrap();
     let which = case["driver"].as_str().unwrap_or("").to_string();
+    if which == "metrics_section" {
+        // a `metrics:` section as the configuration file gives it: does init (all that --test runs) accept it, and does listen
+        // (start-up) then get through?  listen runs under catch_unwind on its own runtime.
+        let a = case["args"].clone();
+        let y = serde_yaml::to_string(&serde_json::json!({"bind": "127.0.0.1:0", "cors": a["cors"], "apiPrefix": a["api_prefix"], "ui": serde_json::Value::Null})).unwrap();
+        let parsed: Result<MetricsServer, _> = serde_yaml::from_str(&y);
+        let mut m = match parsed { Ok(m) => m, Err(e) => { println!("VERIF-OUTCOME {}", serde_json::json!({"panicked": false, "parsed": false, "err": e.to_string()})); return; } };
+        let init_ok = m.init().is_ok();
+        let mut listen_panicked = false;
+        let mut listen_ok = None;
+        if init_ok {
+            let m = Arc::new(m);
+            let r = std::panic::catch_unwind(std::panic::AssertUnwindSafe(|| {
+                let rt = tokio::runtime::Builder::new_current_thread().enable_all().build().unwrap();
+                rt.block_on(async move { let state: Arc<GlobalState> = Arc::new(GlobalState::default()); m.listen(state).await.is_ok() })
+            }));
+            match r { Ok(b) => listen_ok = Some(b), Err(_) => listen_panicked = true }
+        }
+        println!("VERIF-OUTCOME {}", serde_json::json!({"panicked": false, "parsed": true, "init_ok": init_ok, "listen_ok": listen_ok, "listen_panicked": listen_panicked}));
+        return;
+    }
+    let rt = tokio::runtime::Builder::new_current_thread().enable_all().build().unwrap();
     let out = rt.block_on(async move {
         let state: Arc<GlobalState> = Arc::new(GlobalState::default());
         let ms = |n| std::time::Duration::from_millis(n);
